@@ -525,6 +525,9 @@ int main(int argc, char **argv)
     scens[nscen - 1].cfg.expected_name = "localhost"; scens[nscen - 1].cfg.sni_ext = 1;
     /* client authentication with an ECDSA key under TLS 1.2 (CertificateVerify signed through the PKA queue) */
     add_scen("tls12-ecdhe-ecdsa-clientauth", K_SESSION, V_TLS12, KX_ECDHE_ECDSA, 0, 1, 0, 0, 0, 1, 1);
+    /* an application that reads a record in two parts and asks for a larger read buffer for the second */
+    add_scen("tls12-psk-two-part-receive-readbuf-of-size", K_SESSION, V_TLS12, KX_PSK, 0, 0, 0, 0, 0, 1, 1);
+    scens[nscen - 1].cfg.feed_of_size = 1;
 
     if (replay)
     {
